@@ -361,6 +361,31 @@ def thin_bar_scenario(r, parse_overflow=False):
     return [(CODEPOINTS[0], (0, 0, 100, 100), [donor]), (CODEPOINTS[1], (0, 0, 100, 100), [copy])]
 
 
+TINY_CONFIG = {"upem": 2048, "ascender": 1638, "descender": -410, "width": 2048}   # 20.48 units per viewBox unit
+
+
+def tiny_copy_scenario(r):
+    """A large solid donor and a gradient-filled copy 25-45 times smaller, far from the origin: the copy->donor transform
+    is fine, but its INVERSE (needed to counter-transform the gradient) leaves the 16.16 range at the larger ratios,
+    which is the overflow branch of the gradient migration; the smaller ratios take the normal branch."""
+    big = r.choice([36, 40, 44])
+    ratio = r.choice([25, 40, 45])
+    small = big / ratio
+    cls = r.choice(["sq", "T", "F"])
+    st = [(0.0, r.choice(PALETTE[:4]), 1), (1.0, r.choice(PALETTE[4:]), 1)]
+    if r.random() < 0.5:
+        grad = FillSpec("linear", stops=st, units="objectBoundingBox", spread="pad", gt=None, geom=(0.0, 0.0, 1.0, 0.3))
+    else:
+        grad = FillSpec("radial", stops=st, units="objectBoundingBox", spread="pad", gt=None, geom=(0.5, 0.5, 0.5), focal=None)
+    solid = FillSpec("solid", color=r.choice(PALETTE), index=None)
+    donor = LayerSpec(cls, (big, 0, 0, big, 46, 46), solid)
+    cx, cy = r.choice([(96, 96), (96, 8), (95, 50)])
+    copy = LayerSpec(cls, (small, 0, 0, small, cx, cy), grad)
+    if r.random() < 0.5:
+        return [(CODEPOINTS[0], (0, 0, 100, 100), [donor, copy])]
+    return [(CODEPOINTS[0], (0, 0, 100, 100), [donor]), (CODEPOINTS[1], (0, 0, 100, 100), [copy])]
+
+
 def shared_gradient_docs_scenario(r):
     """Two or three OT-SVG documents (sharing groups) whose glyphs use IDENTICAL userSpaceOnUse gradients; in the later
     groups the first glyph is solid-only and shares a shape with the next glyph (so <defs> is non-empty before the
